@@ -139,10 +139,10 @@ static void M__ZSt28__throw_bad_array_new_lengthv(void) { verif_throw_std(VERIF_
 static void M__ZSt20__throw_out_of_rangePKc(void *m) { (void)m; verif_throw_std(VERIF_TID_OUT_OF_RANGE); }
 #endif
 #ifdef USES_VA4__ZSt24__throw_out_of_range_fmtPKcz
-static void VA4__ZSt24__throw_out_of_range_fmtPKcz(u8 *f, u64 a, u64 b, u64 c) { (void)f; (void)a; (void)b; (void)c; verif_throw_std(VERIF_TID_OUT_OF_RANGE); }
+void VA4__ZSt24__throw_out_of_range_fmtPKcz(u8 *f, u64 a, u64 b, u64 c) { (void)f; (void)a; (void)b; (void)c; verif_throw_std(VERIF_TID_OUT_OF_RANGE); }
 #endif
 #ifdef USES_VA3__ZSt24__throw_out_of_range_fmtPKcz
-static void VA3__ZSt24__throw_out_of_range_fmtPKcz(u8 *f, u64 a, u64 b) { (void)f; (void)a; (void)b; verif_throw_std(VERIF_TID_OUT_OF_RANGE); }
+void VA3__ZSt24__throw_out_of_range_fmtPKcz(u8 *f, u64 a, u64 b) { (void)f; (void)a; (void)b; verif_throw_std(VERIF_TID_OUT_OF_RANGE); }
 #endif
 
 /* ---------------------------------------------------------------- harness support */
@@ -574,5 +574,64 @@ static void M__ZN13BitSerializer22SerializationExceptionC2ENS_22SerializationErr
 #ifdef USES__ZN13BitSerializer7Convert6Detail2ToImcSaIcELi0EEEvRKT_RNSt7__cxx1112basic_stringIT0_St11char_traitsIS9_ET1_EE
 static void MO__ZN13BitSerializer7Convert6Detail2ToImcSaIcELi0EEEvRKT_RNSt7__cxx1112basic_stringIT0_St11char_traitsIS9_ET1_EE(void *in, void *out) {
   (void)in; u8 q = '?'; verif_str_append(VSTR(out), &q, 1, 1);
+}
+#endif
+
+/* ---------------------------------------------------------------- snprintf("%04ld-%02d-%02dT%02d:%02d:%02d") used by PrintIsoUtc
+ * Captures the arguments (so that a harness can read the calendar fields the library computed without parsing digits) and
+ * renders the text.  mode 0: exact decimal rendering (digit loop, use with bounded years); mode 1: exact LENGTH but '0'
+ * placeholder digits (no division: for buffer-safety obligations over the full 64-bit range).  Returns, as C requires, the
+ * length the complete text would have; writes at most size-1 characters plus the terminating NUL. */
+static s64 verif_snprintf_args[6];
+static s32 verif_snprintf_mode_v;
+static u32 verif_snprintf_calls;
+#ifdef USES_verif_snprintf_mode
+static void M_verif_snprintf_mode(s32 m) { verif_snprintf_mode_v = m; }
+#endif
+#ifdef USES_verif_snprintf_arg
+static s64 M_verif_snprintf_arg(s32 i) { return verif_snprintf_args[i]; }
+#endif
+#ifdef USES_VA9_snprintf
+static inline u32 verif_ndigits_u64(u64 v) {
+  u32 n = 1; u64 p = 10;
+  for (u32 i = 0; i < 19; i++) { if (v >= p) { n++; if (i < 18) p *= 10; else break; } else break; }
+  return n;
+}
+u32 VA9_snprintf(u8 *buf, u64 size, u8 *fmt, u64 year, u32 mon, u32 day, u32 hour, u32 min, u32 sec) {
+  static const char expect[] = "%04ld-%02d-%02dT%02d:%02d:%02d";
+  for (u32 i = 0; i < sizeof(expect); i++) VERIF_MODEL(fmt[i] == (u8)expect[i], "snprintf format string differs from the modelled one");
+  verif_snprintf_calls++;
+  verif_snprintf_args[0] = (s64)year; verif_snprintf_args[1] = (s32)mon; verif_snprintf_args[2] = (s32)day;
+  verif_snprintf_args[3] = (s32)hour; verif_snprintf_args[4] = (s32)min; verif_snprintf_args[5] = (s32)sec;
+  u8 tmp[48]; u32 n = 0;
+  s64 y = (s64)year;
+  u64 ay = y < 0 ? (u64)0 - (u64)y : (u64)y;
+  if (y < 0) tmp[n++] = '-';
+  u32 nd = verif_ndigits_u64(ay);
+  u32 width = nd;
+  /* %04ld pads to a total field width of 4 including the sign */
+  u32 minw = y < 0 ? 3 : 4;
+  if (width < minw) width = minw;
+  if (verif_snprintf_mode_v == 0) {
+    u64 r = ay;
+    for (u32 i = 0; i < width; i++) { tmp[n + width - 1 - i] = (u8)('0' + (u32)(r % 10)); r /= 10; }
+  } else {
+    for (u32 i = 0; i < width; i++) tmp[n + i] = '0';
+  }
+  n += width;
+  u32 f[5]; f[0] = mon; f[1] = day; f[2] = hour; f[3] = min; f[4] = sec;
+  static const char sep[5] = { '-', '-', 'T', ':', ':' };
+  for (u32 k = 0; k < 5; k++) {
+    tmp[n++] = (u8)sep[k];
+    s32 v = (s32)f[k];
+    VERIF_MODEL(v >= 0 && v <= 99, "snprintf model: two-digit field out of 0..99");
+    tmp[n++] = (u8)('0' + (u32)v / 10); tmp[n++] = (u8)('0' + (u32)v % 10);
+  }
+  if (size > 0) {
+    u32 w = n < size - 1 ? n : (u32)(size - 1);
+    for (u32 i = 0; i < 47; i++) if (i < w) buf[i] = tmp[i];
+    buf[w] = 0;
+  }
+  return (u32)n;
 }
 #endif
